@@ -1,0 +1,115 @@
+//go:build verif
+
+package packet
+
+// Contracts for SUBSCRIBE (§3.8) and UNSUBSCRIBE (§3.10) (govc, /verif).
+// Comments only.
+//
+// The remaining length of a list packet is a sum over its entries; it is
+// specified through the prefix-sum functions suboff/unsoff (entry i of a
+// SUBSCRIBE takes 2+len(topic)+1 bytes, of an UNSUBSCRIBE 2+len(topic)).
+// Monotonicity of the prefix sums is proved by induction (lemmas *_mono), so
+// that the size precondition of the encoders follows from the packet being
+// well-formed (remaining length <= 268435455).
+
+// ---------------------------------------------------------------- UNSUBSCRIBE
+//
+//@ spec func unsoff(u *Unsubscribe, i int) int = i <= 0 ? 0 : unsoff(u, i-1) + 2 + len(u.Topics[i-1])
+//@ spec func unsrl(u *Unsubscribe) int = 2 + unsoff(u, len(u.Topics))
+//@ spec pred uns_sizes(u *Unsubscribe) = unsrl(u) <= 268435455 && 0 <= unsoff(u, len(u.Topics)) && forall i int {u.Topics[i]} :: 0 <= i && i < len(u.Topics) ==> 0 <= unsoff(u, i) && unsoff(u, i) + 2 + len(u.Topics[i]) <= unsoff(u, len(u.Topics))
+//@ spec pred wf_unsubscribe(u *Unsubscribe) = u.ID != 0 && len(u.Topics) >= 1 && unsrl(u) <= 268435455 && forall i int {u.Topics[i]} :: 0 <= i && i < len(u.Topics) ==> len(u.Topics[i]) <= 65535
+//
+//@ lemma unsoff_mono(u *Unsubscribe, j int)
+//@   requires 0 <= j
+//@   ensures [nonneg] 0 <= unsoff(u, j)
+//@   ensures [mono] forall i int {u.Topics[i]} :: 0 <= i && i < j ==> 0 <= unsoff(u, i) && unsoff(u, i) + 2 + len(u.Topics[i]) <= unsoff(u, j)
+//@   by induction on j
+//@ lemma uns_sizes_from_wf(u *Unsubscribe)
+//@   requires unsrl(u) <= 268435455
+//@   ensures [sizes] uns_sizes(u)
+//@   use unsoff_mono(u, len(u.Topics))
+//
+//@ func (u *Unsubscribe) len() (n int)
+//@   requires [sizes] uns_sizes(u)
+//@   ensures n == unsrl(u)
+//@   loop 1 invariant [sum] 0 <= rangeindex + 1 && rangeindex + 1 <= len(u.Topics) && total == 2 + unsoff(u, rangeindex + 1)
+//@ func (u *Unsubscribe) Len() (n int)
+//@   requires [sizes] uns_sizes(u)
+//@   ensures [size] n == 1 + vlen(unsrl(u)) + unsrl(u)
+//
+//@ func (u *Unsubscribe) Encode(dst []byte) (n int, err error)
+//@   requires [sizes]  uns_sizes(u)
+//@   ensures [ok]      wf_unsubscribe(u) && len(dst) >= 1 + vlen(unsrl(u)) + unsrl(u) ==> err == nil
+//@   ensures [count]   err == nil ==> n == 1 + vlen(unsrl(u)) + unsrl(u)
+//@   ensures [l-hdr]   err == nil ==> hdr_at(dst, 10, 2, unsrl(u))
+//@   ensures [l-id]    err == nil ==> be16(dst, 1 + vlen(unsrl(u))) == u.ID && u.ID != 0
+//@   ensures [rej]     err == nil ==> forall i int {u.Topics[i]} :: 0 <= i && i < len(u.Topics) ==> len(u.Topics[i]) <= 65535
+//@   modifies dst[0:len(dst)]
+//@   loop 1 invariant [pos]  0 <= rangeindex + 1 && rangeindex + 1 <= len(u.Topics) && total == 3 + vlen(unsrl(u)) + unsoff(u, rangeindex + 1) && len(dst) >= 1 + vlen(unsrl(u)) + unsrl(u) && u.ID != 0
+//@   loop 1 invariant [hdr]  hdr_at(dst, 10, 2, unsrl(u)) && be16(dst, 1 + vlen(unsrl(u))) == u.ID
+//@   loop 1 invariant [lens] forall i int {u.Topics[i]} :: 0 <= i && i <= rangeindex ==> len(u.Topics[i]) <= 65535
+//
+//@ func (u *Unsubscribe) Decode(src []byte) (n int, err error)
+//@   ensures [bound]    0 <= n && n <= len(src)
+//@   ensures [hdr]      err == nil ==> hdr_ok(src, 10) && rlen(src) >= 2
+//@   ensures [extent]   err == nil ==> n == hlen(src) + rlen(src)
+//@   ensures [id]       err == nil ==> u.ID == be16(src, hlen(src)) && u.ID != 0
+//@   ensures [nonempty] err == nil ==> len(u.Topics) >= 1
+//@   ensures [lens]     err == nil ==> forall i int {u.Topics[i]} :: 0 <= i && i < len(u.Topics) ==> len(u.Topics[i]) <= 65535
+//@   modifies u.ID, u.Topics, elems(u.Topics[0:cap(u.Topics)])
+//@   loop 1 invariant [pos]  hdr_ok(src, 10) && hlen(src) + 2 <= total && total + tl == hlen(src) + rlen(src) && u.ID == be16(src, hlen(src)) && u.ID != 0
+//@   loop 1 invariant [lens] forall i int {u.Topics[i]} :: 0 <= i && i < len(u.Topics) ==> len(u.Topics[i]) <= 65535
+//@   loop 1 invariant [cnt]  tl < rlen(src) - 2 ==> len(u.Topics) >= 1
+//@   loop 1 invariant [own]  total <= len(src) && (fresh(u.Topics) || (arr(u.Topics) == arr(old(u.Topics)) && off(u.Topics) == off(old(u.Topics)) && cap(u.Topics) == cap(old(u.Topics))))
+//@   loop 1 decreases tl
+
+// ---------------------------------------------------------------- SUBSCRIBE
+//
+//@ spec func suboff(s *Subscribe, i int) int = i <= 0 ? 0 : suboff(s, i-1) + 3 + len(s.Subscriptions[i-1].Topic)
+//@ spec func subrl(s *Subscribe) int = 2 + suboff(s, len(s.Subscriptions))
+//@ spec pred sub_sizes(s *Subscribe) = subrl(s) <= 268435455 && 0 <= suboff(s, len(s.Subscriptions)) && forall i int {s.Subscriptions[i].Topic} :: 0 <= i && i < len(s.Subscriptions) ==> 0 <= suboff(s, i) && suboff(s, i) + 3 + len(s.Subscriptions[i].Topic) <= suboff(s, len(s.Subscriptions))
+//@ spec pred wf_subscribe(s *Subscribe) = s.ID != 0 && len(s.Subscriptions) >= 1 && subrl(s) <= 268435455 && forall i int {s.Subscriptions[i].Topic} :: 0 <= i && i < len(s.Subscriptions) ==> len(s.Subscriptions[i].Topic) <= 65535 && s.Subscriptions[i].QOS <= 2
+//
+//@ lemma suboff_mono(s *Subscribe, j int)
+//@   requires 0 <= j
+//@   ensures [nonneg] 0 <= suboff(s, j)
+//@   ensures [mono] forall i int {s.Subscriptions[i].Topic} :: 0 <= i && i < j ==> 0 <= suboff(s, i) && suboff(s, i) + 3 + len(s.Subscriptions[i].Topic) <= suboff(s, j)
+//@   by induction on j
+//@ lemma sub_sizes_from_wf(s *Subscribe)
+//@   requires subrl(s) <= 268435455
+//@   ensures [sizes] sub_sizes(s)
+//@   use suboff_mono(s, len(s.Subscriptions))
+//
+//@ func (s *Subscribe) len() (n int)
+//@   requires [sizes] sub_sizes(s)
+//@   ensures n == subrl(s)
+//@   loop 1 invariant [sum] 0 <= rangeindex + 1 && rangeindex + 1 <= len(s.Subscriptions) && total == 2 + suboff(s, rangeindex + 1)
+//@ func (s *Subscribe) Len() (n int)
+//@   requires [sizes] sub_sizes(s)
+//@   ensures [size] n == 1 + vlen(subrl(s)) + subrl(s)
+//
+//@ func (s *Subscribe) Encode(dst []byte) (n int, err error)
+//@   requires [sizes]  sub_sizes(s)
+//@   ensures [ok]      wf_subscribe(s) && len(dst) >= 1 + vlen(subrl(s)) + subrl(s) ==> err == nil
+//@   ensures [count]   err == nil ==> n == 1 + vlen(subrl(s)) + subrl(s)
+//@   ensures [l-hdr]   err == nil ==> hdr_at(dst, 8, 2, subrl(s))
+//@   ensures [l-id]    err == nil ==> be16(dst, 1 + vlen(subrl(s))) == s.ID && s.ID != 0
+//@   ensures [rej]     err == nil ==> forall i int {s.Subscriptions[i].Topic} :: 0 <= i && i < len(s.Subscriptions) ==> len(s.Subscriptions[i].Topic) <= 65535 && s.Subscriptions[i].QOS <= 2
+//@   modifies dst[0:len(dst)]
+//@   loop 1 invariant [pos]  0 <= rangeindex + 1 && rangeindex + 1 <= len(s.Subscriptions) && total == 3 + vlen(subrl(s)) + suboff(s, rangeindex + 1) && len(dst) >= 1 + vlen(subrl(s)) + subrl(s) && s.ID != 0
+//@   loop 1 invariant [hdr]  hdr_at(dst, 8, 2, subrl(s)) && be16(dst, 1 + vlen(subrl(s))) == s.ID
+//@   loop 1 invariant [lens] forall i int {s.Subscriptions[i].Topic} :: 0 <= i && i <= rangeindex ==> len(s.Subscriptions[i].Topic) <= 65535 && s.Subscriptions[i].QOS <= 2
+//
+//@ func (s *Subscribe) Decode(src []byte) (n int, err error)
+//@   ensures [bound]    0 <= n && n <= len(src)
+//@   ensures [hdr]      err == nil ==> hdr_ok(src, 8) && rlen(src) >= 2
+//@   ensures [extent]   err == nil ==> n == hlen(src) + rlen(src)
+//@   ensures [id]       err == nil ==> s.ID == be16(src, hlen(src)) && s.ID != 0
+//@   ensures [nonempty] err == nil ==> len(s.Subscriptions) >= 1
+//@   ensures [entries]  err == nil ==> forall i int {s.Subscriptions[i].Topic} :: 0 <= i && i < len(s.Subscriptions) ==> len(s.Subscriptions[i].Topic) <= 65535 && s.Subscriptions[i].QOS <= 2
+//@   modifies s.ID, s.Subscriptions, elems(s.Subscriptions[0:cap(s.Subscriptions)])
+//@   loop 1 invariant [pos]  hdr_ok(src, 8) && hlen(src) + 2 <= total && total + sl == hlen(src) + rlen(src) && s.ID == be16(src, hlen(src)) && s.ID != 0
+//@   loop 1 invariant [ents] forall i int {s.Subscriptions[i].Topic} :: 0 <= i && i < len(s.Subscriptions) ==> len(s.Subscriptions[i].Topic) <= 65535 && s.Subscriptions[i].QOS <= 2
+//@   loop 1 invariant [cnt]  sl < rlen(src) - 2 ==> len(s.Subscriptions) >= 1
+//@   loop 1 invariant [own]  total <= len(src) && (fresh(s.Subscriptions) || (arr(s.Subscriptions) == arr(old(s.Subscriptions)) && off(s.Subscriptions) == off(old(s.Subscriptions)) && cap(s.Subscriptions) == cap(old(s.Subscriptions))))
+//@   loop 1 decreases sl
